@@ -30,10 +30,12 @@ func (Prop) Rule() string {
 	return "E1 stream: engine.BFS over histories of {XORKeyStream(l), XORKeyStreamAt(off,l)} on real objects from zuc.NewCipher / NewCipherWithBucketSize " +
 		"for ZUC-128 and ZUC-256 x bucket sizes {0,1,128,129,256,384}; quick: l in {1,4,127,128,129,257}, off in {0,1,127,128,129,256,385,1000} (54 ops) to depth 3; " +
 		"thorough: l in {0,1,3,4,5,127,128,129,255,256,257}, off in {0,1,3,4,127,128,129,255,256,257,383,384,385,511,512,1000} (187 ops) to depth " + fmt.Sprint(thoroughBigDepth) + " and the quick alphabet to depth " + fmt.Sprint(thoroughSmallDepth) + ". " +
-		"Every operation is applied to three twin objects (disjoint dst, in place, dst longer than src) and each output is compared with src XOR reference keystream at the absolute positions " +
-		"(XORKeyStreamAt moves the sequential position to off+l, as the seek documentation says); states are merged only on an identical SHA-256 of the reflect dump of the whole cipher object " +
+		"(thorough: one search per (object, first operation) so that a case stays small; merging is then per case). " +
+		"Each output is compared with src XOR reference keystream at the absolute positions (XORKeyStreamAt moves the sequential position to off+l, as the seek documentation says); " +
+		"the buffer mode of an operation rotates with (depth + operation index) mod 3 over {disjoint dst, in place, dst longer than src (tail must stay untouched)}, buffers end at a guard page; " +
+		"states are merged only on an identical SHA-256 of the reflect dump of the whole cipher object " +
 		"(LFSR/FSM, partial-round buffer incl. stale bytes, position, checkpoint list, stateIndex, bucket size) + model position. " +
-		"E2 stream: every length 0..N followed by a second call, and every offset 0..N on a fresh object, N=600 (thorough 1300), plus the EEA3 constructors. " +
+		"E2 stream: every length 0..N followed by a second call and a backward seek, and every offset 0..N on a fresh object followed by a sequential call and a backward seek, in all three buffer modes, N=600 (thorough 1300), bucket sizes 0/128/256 and both constructors, plus the EEA3 constructors for all bearers/directions. " +
 		"MAC E2: every bit length 0..640 (thorough 0..2100) through Finish(p,nbits) on a fresh and on a reused object, bits after nbits set to 1 resp. 0, p ending at a guard page, " +
 		"for 128-EIA3 and ZUC-256 MAC with 4/8/16-byte tags x 2 keys x 3 message patterns; every 2-partition of every byte length 0..80 (thorough 0..200) through Write/Write/Sum. " +
 		"MAC E1: engine.BFS over {Write(c) for 20 chunk sizes around the 16-byte block, Reset, Finish(b bits) for 14 values of b} with Sum(nil)/Sum(prefix) compared with the reference after every step, " +
@@ -138,8 +140,9 @@ const nModes = 3 // 0: disjoint dst, 1: in place, 2: dst longer than src
 var modeName = [nModes]string{"disjoint", "inplace", "longdst"}
 
 type sstate struct {
-	c   [nModes]gmcipher.SeekableStream
-	pos int
+	c     gmcipher.SeekableStream
+	pos   int // model: absolute position of the next sequential byte
+	steps int // operations applied so far (selects the buffer mode of the next one)
 }
 
 // bufs are reused across steps; data is always placed at the END of the guard buffer so that the slice
@@ -186,8 +189,8 @@ func seekClass(at bool, off, pos int) string {
 	}
 }
 
-// apply performs one operation on the three twins and checks every output. It returns false on a violation.
-func apply(t *engine.T, b *bufs, exp []byte, s *sstate, o sop, bucketClass string) bool {
+// apply performs one operation in the given buffer mode and checks the output. It returns false on a violation.
+func apply(t *engine.T, b *bufs, exp []byte, s *sstate, o sop, m int, bucketClass string) bool {
 	p := s.pos
 	if o.at {
 		p = o.off
@@ -197,57 +200,54 @@ func apply(t *engine.T, b *bufs, exp []byte, s *sstate, o sop, bucketClass strin
 		panic("harness: position beyond the precomputed reference keystream")
 	}
 	want := exp[p : p+o.l]
-	for m := 0; m < nModes; m++ {
-		src := tail(b.src, o.l)
+	src := tail(b.src, o.l)
+	for i := range src {
+		src[i] = content(p + i)
+	}
+	var dst []byte
+	switch m {
+	case 0:
+		dst = tail(b.dst, o.l)
+	case 1:
+		dst = tail(b.dst, o.l)
+		copy(dst, src)
+		src = dst
+	case 2:
+		dst = tail(b.dst, o.l+extra)
+	}
+	if m != 1 {
+		for i := range dst {
+			dst[i] = 0x5A
+		}
+	}
+	if t.Guard("stream/"+cls, func() {
+		if o.at {
+			s.c.XORKeyStreamAt(dst, src, uint64(o.off))
+		} else {
+			s.c.XORKeyStream(dst, src)
+		}
+	}) {
+		return false
+	}
+	if !bytes.Equal(dst[:o.l], want) {
+		d := engine.FirstDiff(dst[:o.l], want)
+		t.Fail("stream/wrong-keystream/"+cls, "%s: output for absolute positions [%d,%d) differs from src XOR reference keystream first at position %d (byte %d of the call); got %s want %s",
+			modeName[m], p, p+o.l, p+d, d, engine.Hex(dst[:o.l]), engine.Hex(want))
+		return false
+	}
+	if m == 0 {
 		for i := range src {
-			src[i] = content(p + i)
-		}
-		var dst []byte
-		switch m {
-		case 0:
-			dst = tail(b.dst, o.l)
-		case 1:
-			dst = tail(b.dst, o.l)
-			copy(dst, src)
-			src = dst
-		case 2:
-			dst = tail(b.dst, o.l+extra)
-		}
-		if m != 1 {
-			for i := range dst {
-				dst[i] = 0x5A
+			if src[i] != content(p+i) {
+				t.Fail("stream/src-modified/"+cls, "src byte %d modified by a call with disjoint dst", i)
+				return false
 			}
 		}
-		c := s.c[m]
-		if t.Guard("stream/"+cls, func() {
-			if o.at {
-				c.XORKeyStreamAt(dst, src, uint64(o.off))
-			} else {
-				c.XORKeyStream(dst, src)
-			}
-		}) {
-			return false
-		}
-		if !bytes.Equal(dst[:o.l], want) {
-			d := engine.FirstDiff(dst[:o.l], want)
-			t.Fail("stream/wrong-keystream/"+cls, "%s: output for absolute positions [%d,%d) differs from src XOR reference keystream first at position %d (byte %d of the call); got %s want %s",
-				modeName[m], p, p+o.l, p+d, d, engine.Hex(dst[:o.l]), engine.Hex(want))
-			return false
-		}
-		if m == 0 {
-			for i := range src {
-				if src[i] != content(p+i) {
-					t.Fail("stream/src-modified/"+cls, "src byte %d modified by a call with disjoint dst", i)
-					return false
-				}
-			}
-		}
-		if m == 2 {
-			for i := o.l; i < len(dst); i++ {
-				if dst[i] != 0x5A {
-					t.Fail("stream/dst-tail-touched/"+cls, "dst[%d] beyond len(src)=%d was written", i, o.l)
-					return false
-				}
+	}
+	if m == 2 {
+		for i := o.l; i < len(dst); i++ {
+			if dst[i] != 0x5A {
+				t.Fail("stream/dst-tail-touched/"+cls, "dst[%d] beyond len(src)=%d was written", i, o.l)
+				return false
 			}
 		}
 	}
@@ -256,6 +256,7 @@ func apply(t *engine.T, b *bufs, exp []byte, s *sstate, o sop, bucketClass strin
 		return false
 	}
 	s.pos = p + o.l
+	s.steps++
 	return true
 }
 
@@ -266,25 +267,35 @@ func hashKey(v any, model int) string {
 	return string(h.Sum(nil))
 }
 
-func streamMachine(t *engine.T, b *bufs, v variant, bucket int, lens, offs []int) engine.Machine[*sstate] {
+func bucketClass(bucket int) string {
+	if bucket == 0 {
+		return "nobucket"
+	}
+	return "bucket"
+}
+
+// streamMachine: first >= 0 restricts the search to the histories that start with operation `first`
+// (it is applied inside New; the caller has checked it once on its own). The buffer mode of an operation
+// is (number of operations before it + operation index) mod 3, so every operation is exercised with a
+// disjoint dst, in place and with a longer dst at the three depths.
+func streamMachine(t *engine.T, b *bufs, v variant, bucket int, lens, offs []int, first int) engine.Machine[*sstate] {
 	ops, names := alphabet(lens, offs)
 	exp := expected(v)
-	bc := "bucket"
-	if bucket == 0 {
-		bc = "nobucket"
-	}
+	bc := bucketClass(bucket)
 	return engine.Machine[*sstate]{
 		Name: fmt.Sprintf("%s/bucket=%d", v.name, bucket),
 		New: func() *sstate {
-			s := &sstate{}
-			for m := range s.c {
-				s.c[m] = newStream(v, bucket, true)
+			s := &sstate{c: newStream(v, bucket, true)}
+			if first >= 0 {
+				apply(t, b, exp, s, ops[first], first%nModes, bc)
 			}
 			return s
 		},
-		Ops:  names,
-		Step: func(s *sstate, op int, t *engine.T) bool { return apply(t, b, exp, s, ops[op], bc) },
-		Key:  func(s *sstate) string { return hashKey(s.c[0], s.pos) },
+		Ops: names,
+		Step: func(s *sstate, op int, t *engine.T) bool {
+			return apply(t, b, exp, s, ops[op], (s.steps+op)%nModes, bc)
+		},
+		Key: func(s *sstate) string { return hashKey(s.c, s.pos) },
 	}
 }
 
@@ -552,7 +563,8 @@ func macMachine(col *collector, b *bufs, mvi int) engine.Machine[*mstate] {
 func (Prop) Run(c *engine.Ctx) {
 	quick := c.Quick()
 
-	// ---- E1 stream
+	// ---- E1 stream. Quick: one search per object. Thorough: one search per (object, first operation), so
+	// that every case stays far below the per-case watchdog; states are then merged within a case only.
 	for _, v := range variants {
 		for _, bucket := range buckets {
 			v, bucket := v, bucket
@@ -560,19 +572,31 @@ func (Prop) Run(c *engine.Ctx) {
 				c.Case(fmt.Sprintf("stream/bfs/%s/bucket=%d/ops=54/depth=3", v.name, bucket), func(t *engine.T) {
 					b := newBufs()
 					defer b.free()
-					engine.BFS(t, streamMachine(t, b, v, bucket, quickLens, quickOffs), 3)
+					engine.BFS(t, streamMachine(t, b, v, bucket, quickLens, quickOffs, -1), 3)
 				})
-			} else {
-				c.Case(fmt.Sprintf("stream/bfs/%s/bucket=%d/ops=187/depth=%d", v.name, bucket, thoroughBigDepth), func(t *engine.T) {
-					b := newBufs()
-					defer b.free()
-					engine.BFS(t, streamMachine(t, b, v, bucket, thoroughLens, thoroughOffs), thoroughBigDepth)
-				})
-				c.Case(fmt.Sprintf("stream/bfs/%s/bucket=%d/ops=54/depth=%d", v.name, bucket, thoroughSmallDepth), func(t *engine.T) {
-					b := newBufs()
-					defer b.free()
-					engine.BFS(t, streamMachine(t, b, v, bucket, quickLens, quickOffs), thoroughSmallDepth)
-				})
+				continue
+			}
+			for _, cfg := range []struct {
+				lens, offs []int
+				depth      int
+			}{{thoroughLens, thoroughOffs, thoroughBigDepth}, {quickLens, quickOffs, thoroughSmallDepth}} {
+				cfg := cfg
+				ops, names := alphabet(cfg.lens, cfg.offs)
+				for first := range ops {
+					first := first
+					c.Case(fmt.Sprintf("stream/bfs/%s/bucket=%d/ops=%d/depth=%d/first=%s", v.name, bucket, len(ops), cfg.depth, names[first]), func(t *engine.T) {
+						b := newBufs()
+						defer b.free()
+						// the first operation, checked once on its own
+						s := &sstate{c: newStream(v, bucket, true)}
+						t.Eval(1)
+						if !apply(t, b, expected(v), s, ops[first], first%nModes, bucketClass(bucket)) {
+							return
+						}
+						t.Nontrivial(fmt.Sprintf("%s/bucket=%d", v.name, bucket) + "\x00" + hashKey(s.c, s.pos))
+						engine.BFS(t, streamMachine(t, b, v, bucket, cfg.lens, cfg.offs, first), cfg.depth-1)
+					})
+				}
 			}
 		}
 	}
@@ -589,37 +613,30 @@ func (Prop) Run(c *engine.Ctx) {
 				b := newBufs()
 				defer b.free()
 				exp := expected(v)
-				bc := "bucket"
-				if bucket == 0 {
-					bc = "nobucket"
-				}
+				bc := bucketClass(bucket)
 				for n := 0; n <= nMax; n++ {
-					// length n, then a second sequential call across the next round boundary, then back to 0
-					s := &sstate{}
-					for m := range s.c {
-						s.c[m] = newStream(v, bucket, bucket != 0)
+					for m := 0; m < nModes; m++ {
+						// length n, then a second sequential call across the next round boundary, then back to n/2
+						s := &sstate{c: newStream(v, bucket, bucket != 0)}
+						ok := apply(t, b, exp, s, sop{l: n}, m, bc) &&
+							apply(t, b, exp, s, sop{l: 133}, (m+1)%nModes, bc) &&
+							apply(t, b, exp, s, sop{at: true, off: n / 2, l: 5}, (m+2)%nModes, bc)
+						t.Eval(3)
+						if !ok {
+							return
+						}
+						// offset n on a fresh object, then sequential, then a backward seek by eight bytes
+						s = &sstate{c: newStream(v, bucket, bucket != 0)}
+						ok = apply(t, b, exp, s, sop{at: true, off: n, l: 131}, m, bc) &&
+							apply(t, b, exp, s, sop{l: 7}, (m+1)%nModes, bc) &&
+							apply(t, b, exp, s, sop{at: true, off: n + 130, l: 3}, (m+2)%nModes, bc)
+						t.Eval(3)
+						if !ok {
+							return
+						}
 					}
-					ok := apply(t, b, exp, s, sop{l: n}, bc) &&
-						apply(t, b, exp, s, sop{l: 133}, bc) &&
-						apply(t, b, exp, s, sop{at: true, off: n / 2, l: 5}, bc)
-					t.Eval(3)
 					t.Nontrivial(fmt.Sprintf("len/%s/%d/%d", v.name, bucket, n))
-					if !ok {
-						return
-					}
-					// offset n on a fresh object, then sequential, then a backward seek by one byte
-					s = &sstate{}
-					for m := range s.c {
-						s.c[m] = newStream(v, bucket, bucket != 0)
-					}
-					ok = apply(t, b, exp, s, sop{at: true, off: n, l: 131}, bc) &&
-						apply(t, b, exp, s, sop{l: 7}, bc) &&
-						apply(t, b, exp, s, sop{at: true, off: n + 130, l: 3}, bc)
-					t.Eval(3)
 					t.Nontrivial(fmt.Sprintf("off/%s/%d/%d", v.name, bucket, n))
-					if !ok {
-						return
-					}
 				}
 				t.Sample(map[string]any{"stream": v.name, "bucket": bucket, "lengths_and_offsets": fmt.Sprintf("0..%d", nMax)})
 			})
